@@ -227,7 +227,9 @@ def _gen_req(rng, keys):
         return None
     if r < 0.68:
         size = rng.choice([2, 2, 2, 3, 3, 4, 4, 1, 5]) if rng.random() < 0.15 else rng.choice([2, 2, 3, 3, 4])
-        wrong = rng.random() < 0.05
+        # wrong filter widths only for size >= 2: with size 1 numpy broadcasts the length-1 vector against any
+        # width, which lies outside the property's sizes 2..4 and is not modelled
+        wrong = rng.random() < 0.05 and size >= 2
         return {"t": "combos", "size": size, "ms2": rng.random() < 0.5,
                 "chord": _gen_chord_spec(rng, size, keys, wrong and rng.random() < 0.5) if rng.random() < 0.45 else None,
                 "combo": _gen_combo_spec(rng, size, keys, wrong and rng.random() < 0.5) if rng.random() < 0.5 else None,
